@@ -15,6 +15,7 @@ import (
 	"os"
 	"runtime"
 	"sync"
+	"sync/atomic"
 	"syscall"
 	"time"
 	"unsafe"
@@ -90,7 +91,18 @@ func (p *poller) addConn(c *Conn) error {
 		_ = c.closeWithError(err)
 		return err
 	}
+	// A Close that comes before this point finds no poller and notifies
+	// nobody: such a connection must not be opened. One that comes later,
+	// while the registration is still going on, is finished by finishOpen.
+	c.mux.Lock()
+	if c.closed {
+		c.mux.Unlock()
+		return net.ErrClosed
+	}
 	c.p = p
+	atomic.StoreInt32(&c.opening, 1)
+	c.mux.Unlock()
+	defer p.finishOpen(c)
 	if c.typ != ConnTypeUDPServer {
 		p.g.onOpen(c)
 	} else {
@@ -113,6 +125,18 @@ func (p *poller) addConn(c *Conn) error {
 	}
 	c.mux.Unlock()
 	return err
+}
+
+// finishOpen ends the registration window of addConn. A close that arrived
+// inside the window only marked the connection: its notification (after the
+// open notification) and the release of the descriptor happen here.
+//
+//go:norace
+func (p *poller) finishOpen(c *Conn) {
+	if !atomic.CompareAndSwapInt32(&c.opening, 1, 0) {
+		atomic.StoreInt32(&c.opening, 0)
+		_ = c.closeWithErrorWithoutLock(c.closeErr)
+	}
 }
 
 // add the connection to poller and handle its io events.
